@@ -189,3 +189,37 @@ func (v *VerifHeartbeatConn) Cleanup() { v.c.streams[lib.Topic_HEARTBEAT].cleanu
 
 // QueueLen is the number of heartbeat packets waiting
 func (v *VerifHeartbeatConn) QueueLen() int { return len(v.c.streams[lib.Topic_HEARTBEAT].sendQueue) }
+
+// VerifReflectingHandshake is the handshake of an endpoint that holds NO identity key: the ephemeral key exchange is done honestly,
+// then whatever the honest peer sends as its identity proof and as its signed meta is received first and sent straight back.
+func VerifReflectingHandshake(conn net.Conn, ephemeralPub, ephemeralPriv []byte) (ec *EncryptedConn, e lib.ErrorI) {
+	ec = &EncryptedConn{conn: conn}
+	peerTempPublicKey, e := keySwap(ec, ephemeralPub, handshakeTimeout)
+	if e != nil {
+		return
+	}
+	secret, err := crypto.SharedSecret(peerTempPublicKey, ephemeralPriv)
+	if err != nil {
+		return nil, ErrFailedDiffieHellman(err)
+	}
+	sendAEAD, receiveAEAD, _, err := crypto.HKDFSecretsAndChallenge(secret, ephemeralPub, peerTempPublicKey)
+	if err != nil {
+		return nil, ErrFailedHKDF(err)
+	}
+	ec.receive, ec.send = newInternalState(receiveAEAD), newInternalState(sendAEAD)
+	peerSig := new(lib.Signature)
+	if _, err = receiveProtoMsg(ec, peerSig, handshakeTimeout); err != nil {
+		return ec, ErrFailedSignatureSwap(err)
+	}
+	if _, err = sendProtoMsg(ec, peerSig, handshakeTimeout); err != nil {
+		return ec, ErrFailedSignatureSwap(err)
+	}
+	peerMeta := new(lib.PeerMeta)
+	if _, err = receiveProtoMsg(ec, peerMeta, handshakeTimeout); err != nil {
+		return ec, ErrFailedMetaSwap(err)
+	}
+	if _, err = sendProtoMsg(ec, peerMeta, handshakeTimeout); err != nil {
+		return ec, ErrFailedMetaSwap(err)
+	}
+	return
+}
